@@ -10,7 +10,7 @@ LEVEL_TEXT = ("Static structural proof of necessary conditions: (R20.1) in Event
               "in the open-process table is given an end (popped-and-ended, or ended by the final sweep), duration "
               "events get their end before they are listed, and the context extraction runs only after the sweep. "
               "Interval arithmetic, boundary cases, equal-onset rows and Delay shifting are NOT decided.")
-LEVEL_EXTRA = "Added after the seeded evaluation: (R20.3) after Delay splitting, counts come from the split table; (R20.4) fresh index per Delay-shifted group; (R20.5) every access to the open-process table case-folds the definition name. (R20.6) the type/definition filter of unfold_context mutates neither its argument nor the manager's state."
+LEVEL_EXTRA = "Added after the seeded evaluation: (R20.3) after Delay splitting, counts come from the split table; (R20.4) fresh index per Delay-shifted group; (R20.5) every access to the open-process table case-folds the definition name. (R20.6) the type/definition filter of unfold_context mutates neither its argument nor the manager's state. (R20.7) the context range of a process starts at the next time point, computed from the onsets."
 
 
 def _raising_guard(ctx, fi, word):
@@ -185,6 +185,22 @@ def run(ctx):
                             "view, unfold or type manager sees the stripped annotation")
     n_split = sum(1 for c in walk_no_nested(fh.node) if isinstance(c, ast.Call) and call_name(c).startswith("split_"))
     ctx.floor("R20.6", "in-place splitter calls in _filter_hed", n_split, 1)
+
+    # rows that share an onset are one time point: a process is context only from the next *time point* on
+    ctx.rule("R20.7", "the context range of a process starts at the next time point (computed from the onsets), not at the next row")
+    from sa.dataflow import ReachingDefs as _RD20, depends_on as _dep20
+    rd20 = _RD20(context)
+    n_rng = 0
+    for c in walk_no_nested(context.node):
+        if isinstance(c, ast.Call) and isinstance(c.func, ast.Name) and c.func.id == "range" and len(c.args) >= 2 and \
+                any(isinstance(x, ast.Attribute) and x.attr == "end_index" for x in ast.walk(c.args[1])):
+            n_rng += 1
+            ok = _dep20(rd20, c.args[0], c, lambda y: isinstance(y, ast.Attribute) and y.attr == "onsets")
+            ctx.check(ok, "R20.7", context.qualname, c, loc(context, c),
+                      "the context of a process starts at `%s`, the next *row*: rows that share the onset at which the process starts "
+                      "(equal-onset rows, a Delay-shifted group landing on an existing onset) list it as context although it did not "
+                      "start strictly earlier" % norm(c.args[0])[:40], desc="context range starts at the next time point")
+    ctx.floor("R20.7", "context ranges in _extract_context", n_rng, 1)
 
     # popped events are ended
     vt = view(ctx, temporal)
